@@ -30,7 +30,8 @@ X = V('X')
 a, b, c = A('a'), A('b'), A('c')
 fa, fb = F('f', a), F('f', b)
 INITIAL = [[], [a], [a, b], [a, b, a], [fa, b, fb, fa], [a, V('FactVar'), b],
-           [a, F('.', A('x'), V('OpenTail')), b]]      # a fact whose argument is the open list [x|_]
+           [a, F('.', A('x'), V('OpenTail')), b],      # a fact whose argument is the open list [x|_]
+           [a, b, a] + [A('n%d' % i) for i in range(300)] + [b]]
 STARTS = {'qa': F('p', a), 'q': F('p', X), 'rX': F('retract', F('p', X)), 'ra': F('retract', F('p', a)), 'rf': F('retract', F('p', F('f', X)))}
 EVENTS = ['start:q', 'start:rX', 'start:ra', 'step:1', 'step:2', 'close:1', 'close:2',
           'asserta', 'assertz', 'retract_b', 'retractall_a']
@@ -50,6 +51,12 @@ EMPTY_EVENTS = ['start:rX', 'step:1', 'assertz', 'retractall_all', 'retract_c', 
 # a fifth alphabet: the goal of a suspended retract arrived in a VARIABLE whose binding ends (release) or is
 # replaced by another goal (rebind) while the retract is suspended: the retract goes on with the goal it was given
 GOALVAR_EVENTS = ['startv:rX', 'startv:ra', 'step:1', 'step:2', 'close:1', 'release:1', 'rebind:1', 'assertz', 'retract_b']
+
+
+# a sixth alphabet on a LARGE store (a, b, a, 300 other facts, b): whatever an engine does differently for big
+# tables or big numbers, the logical update view is the same; drain takes all remaining answers of a suspended goal
+BIG_EVENTS = ['start:q', 'start:rX', 'start:ra', 'step:1', 'drain:1', 'asserta', 'assertz', 'retract_b', 'retractall_a']
+BIG_STORE = 7
 
 
 def bounds(tier):
@@ -73,7 +80,7 @@ class Run:
         kind, _, arg = ev.partition(':')
         if kind in ('start', 'startv'):
             return self.slots[1] is None or self.slots[2] is None
-        if kind in ('step', 'close'):
+        if kind in ('step', 'close', 'drain'):
             return self.slots[int(arg)] is not None
         if kind in ('release', 'rebind'):
             return self.slots[int(arg)] is not None and int(arg) in self.viavar
@@ -117,6 +124,18 @@ class Run:
             w.close(h)
             self.slots[k] = None
             return ('closed', k)
+        if kind == 'drain':
+            k = int(arg)
+            h, v, _ = self.slots[k]
+            rest = []
+            while w.step(h):
+                rest.append(w.observe([v], h))
+                if len(rest) > 2000:
+                    rest.append('runaway')
+                    w.close(h)
+                    break
+            self.slots[k] = None
+            return ('drained', k, tuple(rest))
         if any(self.slots.values()):
             self.overlap = True
         if ev == 'clear':
@@ -181,7 +200,7 @@ def run_history(init, hist):
             with watchdog(60):
                 with StepBudget(400000):
                     got = ri.do(ev)
-                    rb = facts_impl(ri.w, ('p', 1))
+                    rb = facts_impl(ri.w, ('p', 1), cap=len(init) + 40)
         except Exceeded as e:
             return ('violation', 'nontermination:' + ev.split(':')[0], label + 'event %d does not terminate: %s; model: %r' % (n + 1, e, exp))
         except Hang as e:
@@ -191,7 +210,7 @@ def run_history(init, hist):
         steps += 2
         if got != exp:
             return ('violation', 'event-differs:' + ev, label + 'event %d: observed %r, the model gives %r' % (n + 1, got, exp))
-        mb = facts_ref(rr.w, ('p', 1))
+        mb = facts_ref(rr.w, ('p', 1), cap=len(init) + 40)
         if rb != mb:
             return ('violation', 'store-differs-after:' + ev, label + 'after event %d the store reads %r, the model holds %r' % (n + 1, rb, mb))
         states.append((mb, tuple((k, s[2]) if s else None for k, s in sorted(rr.slots.items())), exp))
@@ -214,7 +233,7 @@ def body_cases(gmax):
     idx = 0
     for n in range(1, gmax + 1):
         for gs in itertools.product(range(len(GOALS)), repeat=n):
-            for ii in range(len(INITIAL)):
+            for ii in range(BIG_STORE):
                 yield idx, gs, ii
                 idx += 1
 
@@ -234,7 +253,7 @@ def classic_cases():
     grow = [(F('grow', X), conj(call(F('assertz', F('p', C(1)))), call(F('p', X)), call(F('assertz', F('p', C(2))))))]
     shift = [(F('shift', X), conj(call(F('retract', F('p', X))), call(F('assertz', F('p', F('s', X)))), FAIL)), (F('shift', A('done')), TRUE)]
     dup = [(F('dup', X), conj(call(F('p', X)), call(F('assertz', F('p', X))), FAIL)), (F('dup', A('done')), TRUE)]
-    for ii in range(len(INITIAL)):
+    for ii in range(BIG_STORE):
         facts = [(F('p', t), True) for t in INITIAL[ii]]
         out.append(('drain', Case([(drain, True, False)], facts, [F('drain', V('A')), F('p', V('R'))], repeat=2, budget=True)))
         out.append(('grow', Case([(grow, True, False)], facts, [F('grow', V('A')), F('p', V('R'))], repeat=1, budget=True)))
@@ -256,7 +275,7 @@ def plan(tier):
     sh += [('b', g, k, 32) for k in range(32)]
     sh += [('c',)]
     if tier != 'quick':
-        sh += [('s', 9, ii) for ii in range(len(INITIAL))]
+        sh += [('s', 9, ii) for ii in range(BIG_STORE)]
     return sh
 
 
@@ -278,6 +297,7 @@ def run_shard(spec):
         work += [(3 * 10 ** 7 + idx, hist, 5) for idx, hist in enumerate(itertools.product(EVENTS, repeat=depth - 1)) if idx % n == k]
         work += [(5 * 10 ** 7 + idx, hist, 6) for idx, hist in enumerate(itertools.product(EVENTS, repeat=depth - 1)) if idx % n == k]
         work += [(6 * 10 ** 7 + idx, hist, 3) for idx, hist in enumerate(itertools.product(GOALVAR_EVENTS, repeat=depth - 1)) if idx % n == k]
+        work += [(7 * 10 ** 7 + idx, hist, BIG_STORE) for idx, hist in enumerate(itertools.product(BIG_EVENTS, repeat=depth - 1)) if idx % n == k]
         for idx, hist, ii in work:
             init = INITIAL[ii]
             if True:
